@@ -506,7 +506,7 @@ func alphabet(w *World) (out []Class) {
 			}
 			continue
 		}
-		if c == "txo2" || c == "cmpctblock4" { // ContextOnly in the specification
+		if c == "txo2" || c == "cmpctblock4" || c == "blocktxn2" || c == "idle" { // ContextOnly in the specification
 			out = append(out, Class{c, "valid", 0})
 			continue
 		}
